@@ -95,7 +95,7 @@ def gen_cases(tier, seed):
                 "order": str(rng.choice(["shuffled", "sorted", "reversed", "blocks"])),
                 "slicer": ["woi", "noi", "ppi"][i % 3],
                 "dim0": str(rng.choice(["weibull", "expweib-wlsq", "expweib-lsq-array", "lognormal"])),
-                "history": str(rng.choice(["first", "refit-permuted", "refit-other"])),
+                "history": ["first", "refit-permuted", "refit-other"][(i // 3 + int(rng.integers(1))) % 3],  # every slicer with every history
                 "sub": int(rng.integers(1 << 31)),
                 "cost": 2,
             }
@@ -145,11 +145,13 @@ def _order(X, order, rng):
 def _make_slicer(case, rng, n):
     from virocon import NumberOfIntervalsSlicer, PointsPerIntervalSlicer, WidthOfIntervalSlicer
 
+    no_range = case["history"] == "refit-other" and int(case["sub"]) % 3 != 0  # data-derived ranges meet a re-fit on other data
+
     mnp = int(max(20, n // 60))
     if case["slicer"] == "woi":
-        return lambda: slicemon.remember_configuration(WidthOfIntervalSlicer(width=float(cfg["w"]), reference=cfg["ref"], right_open=cfg["ro"], value_range=cfg["vr"], min_n_points=mnp, min_n_intervals=3)), (cfg := {"w": rng.choice([0.5, 0.3, 0.7, 1.0]), "ref": str(rng.choice(["center", "left", "right"])), "ro": bool(rng.integers(2)), "vr": [None, None, (1.0, 3.0), (0.5, None), (None, 3.5), (0.6, 2.8)][int(rng.integers(6))]})
+        return lambda: slicemon.remember_configuration(WidthOfIntervalSlicer(width=float(cfg["w"]), reference=cfg["ref"], right_open=cfg["ro"], value_range=cfg["vr"], min_n_points=mnp, min_n_intervals=3)), (cfg := {"w": rng.choice([0.5, 0.3, 0.7, 1.0]), "ref": str(rng.choice(["center", "left", "right"])), "ro": bool(rng.integers(2)), "vr": [None, None, (1.0, 3.0), (0.5, None), (None, 3.5), (0.6, 2.8)][0 if no_range else int(rng.integers(6))]})
     if case["slicer"] == "noi":
-        return lambda: slicemon.remember_configuration(NumberOfIntervalsSlicer(n_intervals=int(cfg["k"]), reference=cfg["ref"], include_max=cfg["im"], value_range=cfg["vr"], min_n_points=mnp, min_n_intervals=3)), (cfg := {"k": rng.choice([6, 10, 15]), "ref": str(rng.choice(["center", "left", "right"])), "im": bool(rng.integers(2)), "vr": [None, None, (0.5, 3.0), (0.0, 3.5)][int(rng.integers(4))]})
+        return lambda: slicemon.remember_configuration(NumberOfIntervalsSlicer(n_intervals=int(cfg["k"]), reference=cfg["ref"], include_max=cfg["im"], value_range=cfg["vr"], min_n_points=mnp, min_n_intervals=3)), (cfg := {"k": rng.choice([6, 10, 15]), "ref": str(rng.choice(["center", "left", "right"])), "im": bool(rng.integers(2)), "vr": [None, None, (0.5, 3.0), (0.0, 3.5)][0 if no_range else int(rng.integers(4))]})
     return lambda: PointsPerIntervalSlicer(n_points=int(cfg["np"]), last_full=cfg["lf"], min_n_intervals=3), (cfg := {"np": max(40, n // int(rng.choice([5, 8, 12]))), "lf": bool(rng.integers(2))})
 
 
